@@ -14,8 +14,8 @@ CHECKS = {
  "C03": ("proptest + exhaustive per-case enumeration of finalization mutants (all bit flips / byte substitutions, XOR-cancelling / sum-preserving / permuting multi-byte alterations, publicly computable constants; pending states also after a native / bincode / JSON round trip) + libFuzzer target server_finish (thorough) + corpus replay; oracle = acceptance model",
          "For generated pending server states (real, fake-record, wrong-password, answered-twice) every single-bit flip and every single-byte substitution of the genuine finalization plus cross-session/constant/random candidates is delivered to a clone; only the matching finalization may yield a key.",
          "Bit/byte substitutions are exhaustive per sampled state; states are sampled. MAC forgeries not generated are out of reach.", "5 C03"),
- "C04": ("proptest + per-case enumeration of response mutants (offset x value, field mixes, fresh fields, XOR-cancelling / sum-preserving / permuting multi-byte alterations per field) + libFuzzer target login_response (thorough) + corpus replay; oracle = acceptance model with alias separation",
-         "For generated honest logins every offset of the genuine credential response is substituted (thorough: all 255 values for fast/medium suites), all field-wise mixes with 7 other responses and fresh valid fields are tried on clones of the pending client state; only the genuine answers may be accepted.",
+ "C04": ("proptest + per-case enumeration of response mutants (offset x value, field mixes, fresh fields, reflection of the client's own request values, XOR-cancelling / sum-preserving / permuting multi-byte alterations per field) + libFuzzer target login_response (thorough) + corpus replay; oracle = acceptance model with alias separation",
+         "For generated honest logins every offset of the genuine credential response is substituted (thorough: all 255 values for fast/medium suites), all field-wise mixes with 7 other responses, fresh valid fields and the client's own request values played back in the response (all subsets, own and other session) are tried on clones of the pending client state; only the genuine answers may be accepted.",
          "Sampling over sessions; enumeration bounds stated in evidence. Mutants that re-encode to a genuine response are aliases and left to C10.", "5 C04"),
  "C05": ("proptest: parameter triples in three families; oracle = effective-parameter match model, both directions",
          "Generated (registration, server-start, client-finish) parameter triples: equal-effective respellings, single disagreements, boundary-shifted splits of one concatenation, 255/256/65535 lengths; login must succeed iff effective parameters agree.",
